@@ -425,7 +425,7 @@ mod amqp_url {
     use url::Url;
 
     pub fn open(url: &str, tuning: ConnectionTuning, allow_insecure: bool) -> Result<Connection> {
-        let mut url = Url::parse(url).context(UrlParseSnafu)?;
+        let mut url = parse_url(url).context(UrlParseSnafu)?;
         let scheme = populate_host_and_port(&mut url)?;
         let options = decode(&url)?;
 
@@ -439,6 +439,30 @@ mod amqp_url {
             }
             Scheme::Amqps => open_amqps(url, options, tuning),
         }
+    }
+
+    // The url crate refuses an authority that has userinfo or a port but no host
+    // (e.g., "amqp://user@" or "amqp://:5673"); like an entirely absent host, that means
+    // localhost.
+    fn parse_url(s: &str) -> std::result::Result<Url, url::ParseError> {
+        match Url::parse(s) {
+            Err(url::ParseError::EmptyHost) => Url::parse(&insert_default_host(s)),
+            other => other,
+        }
+    }
+
+    fn insert_default_host(s: &str) -> String {
+        if let Some(start) = s.find("://").map(|i| i + 3) {
+            let end = s[start..]
+                .find(|c| c == '/' || c == '?' || c == '#')
+                .map_or(s.len(), |i| start + i);
+            let host_start = s[start..end].rfind('@').map_or(start, |i| start + i + 1);
+            let host = &s[host_start..end];
+            if host.is_empty() || host.starts_with(':') {
+                return format!("{}localhost{}", &s[..host_start], &s[host_start..]);
+            }
+        }
+        s.to_string()
     }
 
     fn open_amqp(
@@ -471,7 +495,7 @@ mod amqp_url {
     pub(crate) fn verif_decode_url(
         url: &str,
     ) -> Result<(bool, String, u16, ConnectionOptions<Auth>)> {
-        let mut url = Url::parse(url).context(UrlParseSnafu)?;
+        let mut url = parse_url(url).context(UrlParseSnafu)?;
         let scheme = populate_host_and_port(&mut url)?;
         let options = decode(&url)?;
         let host = url.host_str().unwrap_or("").to_string();
